@@ -13,7 +13,7 @@ pub fn cfg_wild_small() -> GenCfg {
 }
 
 pub fn run(c: &Ctx) {
-    c.set_rule("histories of every trait method with the unrestricted argument generator (paths through links, root as any argument, empty string, long '..' chains, 300-byte names, src==dst, src ancestor/descendant of dst, every builder option, failing calls kept in; write()/append() handles that stay open across later steps - so a handle can outlive, or be flushed after, the removal, replacement or move of its file), from a fresh Memfs; after EVERY step the raw dump (hook H2) must satisfy: every key but the root has a parent key that is a real directory and lists it; every listed name exists; regular non-link files and only they have byte content; entry.path == key; cwd/root absolute and clean; no children below non-directories; lock not poisoned; and the public API view (exists/mode/owner/read/readlink_abs/cwd) equals the stored state. Non-trivial = history containing a failing call or a two-path op; distinct by concrete op list.");
+    c.set_rule("histories of every trait method with the unrestricted argument generator (paths through links, root as any argument, empty string, long '..' chains, 300-byte names, src==dst, src ancestor/descendant of dst, every builder option, failing calls kept in; write()/append() handles that stay open across later steps - so a handle can outlive, or be flushed after, the removal, replacement or move of its file), from a fresh Memfs; after EVERY step the raw dump (hook H2) must satisfy: every key but the root has a parent key that is a real directory and lists it; every listed name exists; regular non-link files and only they have byte content; entry.path == key; cwd/root absolute and clean; no children below non-directories; lock not poisoned; and the public API view (exists/mode/owner/read/readlink_abs/cwd) equals the stored state. Concurrent part: every two-thread program with one call each over the 46-form C04 alphabet from two seed states, all interleavings at guard granularity: no panic, every call returns, the same invariants at quiescence. Non-trivial = history containing a failing call or a two-path op; distinct by concrete op list.");
     c.assume("Memfs::verif_dump (hook H2) is a faithful copy of the internal indexes");
     let n = c.tier.pick(30_000, 300_000);
     let cfg = cfg_wild_small();
@@ -21,10 +21,34 @@ pub fn run(c: &Ctx) {
     let cfg2 = cfg_wild();
     let n2 = c.tier.pick(2_000, 40_000);
     run_proptest("ops", 302, || history(c.tier.pick(80, 200)), n2, |specs: &Vec<OpSpec>| check_history(c, specs, &cfg2, &OPTS, "ops"));
+    // "... and at quiescence after every explored concurrent schedule": every (1,1) two-thread program over the
+    // C04 call alphabet from two seed states, ALL interleavings at critical-section granularity (controlled
+    // scheduler on hook H1); judged here for panics, returned calls and the tree invariants only
+    crate::sched::install_hook();
+    let alpha = crate::props::c04::alphabet(true);
+    let mut jobs: Vec<(u8, Vec<Vec<Op>>)> = vec![];
+    for seed in [2u8, 3] {
+        for a in &alpha {
+            for b in &alpha {
+                let mut p = vec![vec![a.clone()], vec![b.clone()]];
+                crate::props::c04::tag_appends(&mut p);
+                jobs.push((seed, p));
+            }
+        }
+    }
+    let execs = std::sync::atomic::AtomicU64::new(0);
+    par_for(jobs.len() as u64, 4, |i| {
+        let (seed, p) = &jobs[i as usize];
+        let n = crate::props::c04::explore(c, *seed, p.clone(), 400, i % 2 == 1, true);
+        execs.fetch_add(n as u64, std::sync::atomic::Ordering::Relaxed);
+    });
+    c.note("concurrent_programs", jobs.len());
+    c.note("concurrent_executions", execs.load(std::sync::atomic::Ordering::Relaxed));
 }
 
 pub fn replay(kind: &str, case: &Value) -> Option<CaseResult> {
     match kind {
+        "sched" => crate::props::c04::replay(kind, case),
         "ops" => {
             let ops: Vec<Op> = serde_json::from_value(case.clone()).ok()?;
             Some(run_ops(&ops, &OPTS))
